@@ -1,6 +1,9 @@
 import Mamba.Lemmas.CliqueColourGreedy
 import Mamba.Lemmas.CliqueColourPolyTerm
 import Mamba.Lemmas.CliqueColourCard
+import Mamba.Lemmas.CliqueGoBK2
+import Mamba.Lemmas.DegGo2
+import Mamba.Model.DsaturGo
 /-!
 # C09 — property theorems (clique and colouring invariants; checkers for the witnesses)
 
@@ -60,6 +63,32 @@ theorem allMaximalCliquesSpec_correct (g : G) :
   refine ⟨canon g.n s, (hmem _).2 ⟨hsorted, hs.of_perm hp⟩, hp, fun t' ht' hp' => ?_⟩
   exact List.Perm.eq_of_pairwise (le := (· < ·)) (fun a b _ _ h1 h2 => by omega) ((hmem _).1 ht').1 hsorted
     (hp'.trans hp.symm)
+
+/-! ## Bron–Kerbosch with pivoting as coded (faithful models of `AllMaximalCliques`, `CliqueNumber`,
+`IndependenceNumber`) -/
+
+/-- for every well-formed graph the faithful model of `graph.AllMaximalCliques` (explicit stack, pivot choice,
+swap-remove of `P`, `X` bookkeeping as in graph/clique.go) terminates within its fuel `2^n`, never panics, and the
+list of cliques it sends on the channel consists of maximal cliques and contains every maximal clique exactly once:
+sorting each reported clique (`canon`) gives a permutation of the duplicate-free list `allMaximalCliquesSpec g`. -/
+theorem allMaximalCliques_model_correct {g : G} (hw : g.WF) :
+    ∃ out, allMaximalCliquesGo g = .ok out ∧ (∀ c ∈ out, IsMaximalClique g c) ∧
+      (out.map (canon g.n)).Perm (allMaximalCliquesSpec g) ∧ (out.map (canon g.n)).Nodup := by
+  obtain ⟨out, he, hcl, hperm⟩ := allMaximalCliquesGo_spec hw
+  refine ⟨out, he, fun c hc => ?_, hperm, hperm.nodup_iff.2 (nodup_allMax g)⟩
+  have hin : canon g.n c ∈ allMaximalCliquesSpec g := hperm.subset (List.mem_map.2 ⟨c, hc, rfl⟩)
+  exact (mem_allMax.1 hin).2.of_perm (canon_perm (hcl c hc).1 (hcl c hc).2.1).symm
+
+/-- the faithful model of `graph.CliqueNumber` (the same loop, keeping the largest reported size) returns the clique
+number -/
+theorem cliqueNumber_model_correct {g : G} (hw : g.WF) : cliqueNumberGo g = .ok (cliqueNumberSpec g) :=
+  cliqueNumberGo_spec hw
+
+/-- the faithful model of `graph.IndependenceNumber` (clique number of the complement view) returns the independence
+number -/
+theorem independenceNumber_model_correct {g : G} (hw : g.WF) :
+    independenceNumberGo g = .ok (independenceNumberSpec g) :=
+  cliqueNumberGo_spec (complement_wf g hw)
 
 /-! ## vertex colourings -/
 
@@ -167,6 +196,38 @@ theorem degeneracyCert_sound {g : G} (hw : g.WF) {d : Nat} {order : List Nat}
   ⟨degeneracyCert_isDegeneracy hw h,
     isDegeneracy_unique (degeneracyCert_isDegeneracy hw h) (degeneracySpec_isDegeneracy g)⟩
 
+/-- the faithful model of `graph.Degeneracy` (bucket queue as coded in graph/general.go: first non-empty bin, last
+vertex of the bin, swap-remove and re-append of the neighbours) never panics, and the pair `(d, order)` it returns is
+accepted by the verified certificate checker; hence `d` is the degeneracy (= `degeneracySpec g`) and `order` certifies
+it -/
+theorem degeneracy_model_correct {g : G} (hw : g.WF) :
+    ∃ d order, degeneracyGo g = .ok (d, order) ∧ degeneracyCert g d order = true ∧
+      IsDegeneracy g d ∧ d = degeneracySpec g := by
+  obtain ⟨d, order, he, hc⟩ := degeneracyGo_spec hw
+  exact ⟨d, order, he, hc, (degeneracyCert_sound hw hc).1, (degeneracyCert_sound hw hc).2⟩
+
+/-! ## DSATUR branch and bound (faithful model `dfsDsatur`, `chromaticNumberGo`, `isKColorableGo`) — PARTIAL
+
+The model (Model/DsaturGo.lean, including Go's `container/heap`) is run by the driver and agrees with the library
+colouring for colouring on every explored input; the colouring it returns is judged on every input by the verified
+checker (`cert=`). What is NOT proved about the model: soundness of the returned colouring for all graphs (needs the
+heap-order invariant: the `Fix` loop visits every heap entry exactly once), that the upper bound only decreases to
+values for which a proper colouring was recorded, exactness (`= chromaticNumberSpec`), and termination within the
+fuel. Proved: only the boundary behaviour below. -/
+
+/-- boundary cases of the DSATUR model: the graph without vertices is coloured with 0 colours whatever the bounds; for
+`n > 0`, an upper bound of `-1` (`IsKColorable(g, -1)`) answers "no colouring" at once and smaller ones panic (negative
+slice length), as in the Go code -/
+theorem dsatur_model_boundary_partial (g : G) (lo up : Int) :
+    (g.n = 0 → dfsDsatur g lo up = .ok (0, some [])) ∧
+    (g.n ≠ 0 → up + 1 = 0 → dfsDsatur g lo up = .ok (-1, none)) ∧
+    (g.n ≠ 0 → up + 1 < 0 → dfsDsatur g lo up = .panic) := by
+  refine ⟨fun h => by simp [dfsDsatur, h], fun h h0 => ?_, fun h h0 => ?_⟩
+  · have hn : (g.n == 0) = false := by simpa using h
+    simp [dfsDsatur, hn, h0]
+  · have hn : (g.n == 0) = false := by simpa using h
+    simp [dfsDsatur, hn, h0]
+
 /-! ## GreedyColor (faithful model) -/
 
 /-- for every vertex order (a permutation of the vertices) the model of `GreedyColor` does not panic and returns a
@@ -243,6 +304,14 @@ example : [0, 1].length ≠ exTriangle.n := by decide
 example : exTriangle.adj 2 0 = true := by decide
 -- test: the model of ChromaticPolynomial on the triangle: k^3 - 3k^2 + 2k
 example : chromaticPolynomial exTriangle = .ok [0, 2, -3, 1] := by decide
+-- test: the Bron–Kerbosch model on the triangle and on the path 0-1-2 (channel order)
+example : allMaximalCliquesGo exTriangle = .ok [[0, 1, 2]] := by decide
+example : allMaximalCliquesGo (ofEdges 3 [(0, 1), (1, 2)]) = .ok [[1, 0], [1, 2]] := by decide
+-- test: the model of Degeneracy on the path 0-1-2
+example : degeneracyGo (ofEdges 3 [(0, 1), (1, 2)]) = .ok (1, [0, 1, 2]) := by decide
+-- test: the DSATUR model on the triangle and on the path (same colourings as the library)
+example : chromaticNumberGo exTriangle = .ok (3, some [0, 2, 1]) := by decide
+example : isKColorableGo exTriangle 2 = .ok (false, none) := by decide
 -- test: the specification values on the triangle
 example : chromaticNumberSpec exTriangle = 3 ∧ cliqueNumberSpec exTriangle = 3 ∧ degeneracySpec exTriangle = 2 := by
   decide
